@@ -321,7 +321,7 @@ def build(spec, d, s, cascade=True):
     inner.get_gradient = rec_grad
 
     (Y, dY) = yields(spec)
-    (dsy, sdw, dswf) = fx.make_weight_services(shg_mgr, Y, dY=dY)
+    (dsy, sdw, dswf) = fx.make_weight_services(shg_mgr, Y, dY=dY, src_factor=src_factor)
     G.services = (dsy, sdw, dswf)
     G.stub = None
     factor = inner
@@ -427,12 +427,12 @@ def op_change_shg(G, s):
 
 def ak_of(spec, s, xs):
     """a_k of the first dataset, computed without skyllh: source weight x detector signal yield"""
-    K = spec['K']
-    (Y, dY) = yields(spec)
-    if callable(Y):
-        g = np.array(xs if len(xs) == K else [xs[0]] * K, dtype=np.float64)
-        Y = Y({'gamma': g})
-    return [float((1.0 + 0.5 * k) * Y[0][k]) for k in range(K)]
+    return [float(v) for v in _ajk(spec, s, xs)[0]]
+
+
+def src_factor(src_recarray):
+    """the detector signal yield depends on the source position (as a real detector's does)"""
+    return 1.0 + 0.4 * np.asarray(src_recarray['ra'], dtype=np.float64)
 
 
 def _ajk(spec, s, xs):
@@ -441,7 +441,7 @@ def _ajk(spec, s, xs):
     if callable(Y):
         g = np.array(xs if len(xs) == K else [xs[0]] * K, dtype=np.float64)
         Y = Y({'gamma': g})
-    return np.array([[(1.0 + 0.5 * k) * Y[j][k] for k in range(K)] for j in range(len(Y))])
+    return np.array([[(1.0 + 0.5 * k) * (Y[j][k] * (1.0 + 0.4 * src_ra(s, k))) for k in range(K)] for j in range(len(Y))])
 
 
 def fj_of(spec, s, xs):
@@ -614,8 +614,8 @@ def keys_of(G, xs):
 # (LLHRatio.evaluate cannot drive such fields at the pinned commit — it calls a ParameterModelMapper method that
 #  does not exist — so the field cache is exercised through the TrialDataManager API itself)
 
-def field_value(d, s, gamma):
-    return DATA[d] * gamma + src_ra(s, 0)
+def field_value(d, s, gamma, ns=1.0):
+    return DATA[d] * gamma + 0.01 * ns + src_ra(s, 0)
 
 
 def build_field(d, s):
@@ -630,9 +630,11 @@ def build_field(d, s):
 
     def calc_gf(tdm, shg_mgr, pmm, global_fitparams_dict):
         T.n_func_calls += 1
-        return tdm.get_data('x') * global_fitparams_dict['gamma'] + shg_mgr.source_list[0].ra
+        return tdm.get_data('x') * global_fitparams_dict['gamma'] + 0.01 * global_fitparams_dict['ns'] \
+            + shg_mgr.source_list[0].ra
     T.tdm = TrialDataManager()
-    T.tdm.add_data_field('gf', calc_gf, global_fitparam_names=['gamma'])
+    # the field depends on TWO global fit parameters: its cache key is the pair of their values
+    T.tdm.add_data_field('gf', calc_gf, global_fitparam_names=['gamma', 'ns'])
     field_init_new(T, d)
     return T
 
@@ -654,10 +656,10 @@ def field_change_source(T, s):
     field_init_same(T)
 
 
-def field_calc(T, gamma):
+def field_calc(T, gamma, ns=1.0):
     """returns (field values, was the field function called)"""
     n = T.n_func_calls
-    T.tdm.calculate_global_fitparam_data_fields(T.shg_mgr, T.pmm, {'gamma': float(gamma)})
+    T.tdm.calculate_global_fitparam_data_fields(T.shg_mgr, T.pmm, {'gamma': float(gamma), 'ns': float(ns)})
     return [float(v) for v in T.tdm.get_data('gf')], T.n_func_calls > n
 
 
@@ -736,7 +738,7 @@ def build_i3(spec, d, s):
     G.stub = fx.StubPDFRatio(cfg, STUB_TABLE[:K], share=True)
     G.product = G.energy * G.stub if spec['order'] == 'first' else G.stub * G.energy
     (Y, dY) = yields(dict(spec, scale='small'))
-    G.services = fx.make_weight_services(G.shg_mgr, Y, dY=dY)
+    G.services = fx.make_weight_services(G.shg_mgr, Y, dY=dY, src_factor=src_factor)
     G.outer = SourceWeightedPDFRatio(dataset_idx=0, src_detsigyield_weights_service=G.services[1], pdfratio=G.product, cfg=cfg)
     G.tdm = TrialDataManager()
     G.d = d
